@@ -513,14 +513,23 @@ def build_rules(ctx, f, b, cfg):
     def outcome(p, asg):
         ex = sum(1 for x in p["blocks"] if x in exits)
         kind = "?"
+        tgt = 0        # `_0 = move _k` (the return of an inlined private helper that builds the result) hands the search on to _k
         for x in reversed(p["blocks"]):
             got = None
-            for s in b.blocks[x]["stmts"]:
-                if s["k"] == "assign" and s["lhs"]["l"] == 0 and not s["lhs"]["p"] and s["rv"]["k"] == "agg" and s["rv"].get("adt", "").endswith("result::Result"):
-                    got = s["rv"]["variant"]
             t = b.term(x)
-            if got is None and t and t["k"] == "call" and t["dest"]["l"] == 0 and not t["dest"]["p"]:
+            if t and t["k"] == "call" and t["dest"]["l"] == tgt and not t["dest"]["p"] and x != p["blocks"][-1]:
                 got = "call:" + callee_def(t).rsplit("::", 1)[-1]
+            for s in reversed(b.blocks[x]["stmts"]):
+                if got is not None:
+                    break
+                if s["k"] == "assign" and s["lhs"]["l"] == tgt and not s["lhs"]["p"]:
+                    rv = s["rv"]
+                    if rv["k"] == "agg" and rv.get("adt", "").endswith("result::Result"):
+                        got = rv["variant"]
+                    elif rv["k"] == "use" and rv["op"].get("pl") is not None and not rv["op"]["pl"]["p"]:
+                        tgt = rv["op"]["pl"]["l"]
+                    else:
+                        got = "other"
             if got:
                 kind = got
                 break
